@@ -68,7 +68,7 @@ PROPS = {
         'aux': ['native_moves', 'native_heap'],
         'level': 'other',
         'claim': 'Local contracts of the memory primitives on all three backends are proved by Verus for all placements and all machine states: share_block_n / erase_block (exact count delta; last reference -> the block is pushed on the deferred list with its children untouched; null pointers skipped), release_block, acquire_block (three exhaustive cases; children of a reused deferred block erased one level), store/load of a field and of a value (slot addresses, integer fields store 0 in the pointer slot, a loaded pointer is shared iff the load is non-destructive), the one-block loops store_values / load_values / store_zeros (right-to-left fold of the single-value transformer with the environment position and field index every call must use; unused fields nulled), the block-linking recursions store_fields / load_fields for objects of any size (composition of the proved transformers block by block, scratch-register evacuation for spilled block pointers, release before read iff consumed) and Memory::store / Memory::load (reference-count dispatch between release and share path). Each contract pins the whole post-state (extensional equality of registers and memory), so the frame is proved too. The statement itself - the four-state partition of all blocks and exact counts at every statement boundary of every execution - is an inductive invariant over program histories and is NOT decided; the proved contracts are the per-operation lemmas such a proof would use.',
-        'note': 'Assumed: A-ITE (the two label patterns emitted by skip_if_zero / if_zero_then_else implement if-then-else; stated as axioms over the structured semantics srun) and A-LBL (fresh labels); ISA specs. The global invariant is not under contract (bounded heap audit only). On AArch64 load_immediate(., 0) is used through its contract restated over srun (assumed there, proved over run in a64_code).',
+        'note': 'Assumed: A-ITE (the two label patterns emitted by skip_if_zero / if_zero_then_else implement if-then-else; stated as axioms over the structured semantics srun) and A-LBL (fresh labels); ISA specs. The global invariant is not under contract (bounded heap audit only).',
         'technique': 'contract-based deductive verification (Verus) of the memory primitives against exact state-transformer specifications, under assumed if-then-else pattern axioms',
         'not_decided': 'the global heap invariant (partition into reachable / reusable / deferred / beneath-deferred, count = references - 1) at every statement boundary',
         'explanation': 'Proved: per-primitive exact state transformers with full frame on x86-64, AArch64, RISC-V (under A-ITE). Not decided: the whole-execution heap invariant.',
